@@ -164,8 +164,73 @@ type stabNode struct {
 	Kids []int8
 }
 
+type famNode struct {
+	Key  int
+	Kids []famNode
+}
+
+// famCheck: in every sibling list the keys are distinct and the list is within its bounds, at every level
+func famCheck(ns []famNode, depth int) string {
+	if len(ns) > 4 {
+		return "sibling list too long"
+	}
+	seen := map[int]bool{}
+	for _, n := range ns {
+		if seen[n.Key] {
+			return fmt.Sprintf("key %d occurs twice among siblings at depth %d", n.Key, depth)
+		}
+		seen[n.Key] = true
+		if msg := famCheck(n.Kids, depth+1); msg != "" {
+			return msg
+		}
+	}
+	return ""
+}
+
 func StabilityProgs() []Prog {
 	var ps []Prog
+	// ONE distinct-slice (and one distinct-map) generator value that is re-entered while an outer draw of the same
+	// value is still collecting elements: every sibling list of a recursive tree comes from it
+	ps = append(ps,
+		one("recursive tree whose sibling lists all come from one SliceOfNDistinct value", "coll rej", func() *rapid.Generator[[]famNode] {
+			var kids *rapid.Generator[[]famNode]
+			node := rapid.Custom(func(t *rapid.T) famNode {
+				n := famNode{Key: rapid.IntRange(0, 5).Draw(t, "key")}
+				if rapid.IntRange(0, 3).Draw(t, "leaf") == 0 {
+					n.Kids = kids.Draw(t, "kids")
+				}
+				return n
+			})
+			kids = rapid.SliceOfNDistinct(node, 0, 4, func(n famNode) int { return n.Key })
+			return kids
+		}, func(ns []famNode) string { return famCheck(ns, 0) }),
+		one("recursive tree whose child maps all come from one MapOfNValues value", "coll rej", func() *rapid.Generator[map[int]famNode] {
+			var kids *rapid.Generator[map[int]famNode]
+			node := rapid.Custom(func(t *rapid.T) famNode {
+				n := famNode{Key: rapid.IntRange(0, 5).Draw(t, "key")}
+				if rapid.IntRange(0, 3).Draw(t, "leaf") == 0 {
+					for _, k := range kids.Draw(t, "kids") {
+						n.Kids = append(n.Kids, k)
+					}
+				}
+				return n
+			})
+			kids = rapid.MapOfNValues(node, 0, 4, func(n famNode) int { return n.Key })
+			return kids
+		}, func(m map[int]famNode) string {
+			for k, n := range m {
+				if k != n.Key {
+					return "key is not keyFn(value)"
+				}
+				if msg := famCheck(n.Kids, 1); msg != "" {
+					return msg
+				}
+			}
+			if len(m) > 4 {
+				return "too long"
+			}
+			return ""
+		}))
 	for _, expr := range []string{`a[0-9]{3}|b[A-Z]{7}`, `[ACGT]{8}`, `x*`, `(ab|c){1,3}`} {
 		expr := expr
 		re := regexp.MustCompile("^(?:" + expr + ")$")
